@@ -154,8 +154,10 @@ mod origin_row {
         let cats = [None, Some(OriginCategory::Backport), Some(OriginCategory::Vendor), Some(OriginCategory::Upstream), Some(OriginCategory::Other)];
         let mut out = vec![];
         for c in cats {
-            for t in TOKENS.iter().chain(["https://example.com/p.patch"].iter()) {
-                out.push((c, Origin::Commit(t.to_string())));
+            for t in TOKENS.iter().chain(["https://example.com/p.patch", "Fedora, https://example.com/p", "a, b, c"].iter()) {
+                if !t.contains(' ') {
+                    out.push((c, Origin::Commit(t.to_string())));
+                }
                 out.push((c, Origin::Other(t.to_string())));
             }
             // what the crate's own parser returns for the bare keyword form ("Origin: vendor")
